@@ -7,7 +7,9 @@ many `dt`, `nperseg`, `noverlap`, `nfft`, time-step jitter and error cases; tole
 Search: the property's clauses on the implementation alone: independent numpy implementation of Welch's definition,
 frequency grid, a^2 scaling, invariance to a constant, change of time unit (density in Hz), normalised maximum 1,
 default segment, uniformity guard, non-negativity, GUI clip of `nperseg`; area = variance and peak location on long
-stationary multi-tone signals (measurements with stated tolerances).
+stationary multi-tone signals (measurements with stated tolerances). The same clauses after every step of operation
+histories on long-lived objects (requests interleaved with updates of the series' data, modify, copies): the spectrum is
+that of the data the series holds at the time of the request.
 """
 import math
 import random
@@ -21,7 +23,13 @@ RULE = ("short: seeded signals of 1..256 samples (gaussian, tones, ramps, consta
         "{0.01..3.7, random} x nperseg (None, 1, odd/even, > n) x noverlap (None, 0, up to nperseg-1, invalid) x nfft (None, "
         ">= nperseg, invalid) x time-step jitter (0, 0.3 %, 2-10 %) x normalize; long: stationary sums of 1-4 sinusoids "
         "(>= 5 bins apart, dominant one >= 3x the others) + optional white noise, 512..8192 samples, dt in {0.05..2}; "
-        "non-trivial = non-constant signal averaged over >= 2 segments; distinct by the full case")
+        "histories: 1-6 requests (TimeSeries.psd incl. window / resampling options, calculate_psd; identical requests repeated) on "
+        "the same object interleaved with data updates through the public interface (x assigned / changed in place: scaled, "
+        "shifted, replaced by another signal, single samples; modify(twin / resample); copy(), copy.copy, re-construction from "
+        "the object's arrays and switching between the objects; read-only calls), short (16..200 samples) and long stationary "
+        "(1024..4096, area and peak after every update); "
+        "non-trivial = non-constant signal averaged over >= 2 segments, or a history with >= 2 requests and a data update; "
+        "distinct by the full case")
 
 DTS = [0.01, 0.1, 0.25, 0.5, 1.0, 2.0, 3.7]
 GUARD_MSG = "varies with more than 1%"
@@ -573,6 +581,107 @@ def floats(a):
     return " ".join(fbits(v) for v in a)
 
 
+def history_signal(rng, n, dt, t0):
+    """non-constant seeded signal recipe (offsets moderate so that a later shift by 1000 keeps the signal resolvable)"""
+    while True:
+        sig, kind = short_signal(rng, n, dt)
+        if kind != "const":
+            break
+    sig["t0"] = t0
+    if sig.get("offset") == 1000.0:
+        sig["offset"] = 25.0
+    return sig, kind
+
+
+def gen_update(rng, n, dt, t0, allow):
+    """one data update through the public interface of TimeSeries"""
+    op = rng.choice(allow)
+    if op == "scale":
+        return dict(op="scale", v=rng.choice([3.0, -2.5, 0.3, 7.0, -1.0, 2.0]), how=rng.choice(["assign", "inplace"]))
+    if op == "shift":
+        return dict(op="shift", v=rng.choice([1000.0, -3.25, 1.0]), how=rng.choice(["assign", "inplace"]))
+    if op == "replace":
+        return dict(op="replace", sig=history_signal(rng, n, dt, t0)[0], how=rng.choice(["assign", "slice"]))
+    if op == "poke":
+        return dict(op="poke", i=rng.randrange(10 ** 6), v=rng.choice([5.0, -1.0, 100.0]))
+    if op == "modify":
+        if rng.random() < 0.5:
+            a, b = sorted([rng.uniform(0.0, 0.4), rng.uniform(0.6, 1.0)])
+            return dict(op="modify", options=dict(twin=[t0 + a * n * dt, t0 + b * n * dt]))
+        return dict(op="modify", options=dict(resample=dt * rng.choice([2.0, 0.5, 3.0, 2.5])))
+    if op == "fork":
+        return dict(op="fork", how=rng.choice(["copy", "copy.copy", "ctor"]))
+    if op == "switch":
+        return dict(op="switch", to=rng.randrange(4))
+    return dict(op="read", what=rng.choice(["get", "std", "max", "mean"]))
+
+
+def gen_history(rng, long):
+    """requests interleaved with data updates on the same object; identical requests are repeated on purpose"""
+    if long:
+        n = rng.choice([1024, 2048, 4096])
+        dt = rng.choice([0.05, 0.1, 0.2, 0.5, 1.0, 0.37])
+        nps = rng.choice([128, 256, n // 8, None])
+        eff = n // 4 if nps is None else nps
+        t0 = rng.choice([0.0, 100.0])
+
+        def tones_sig():
+            df, fny = 1.0 / (eff * dt), 0.5 / dt
+            fs, tries = [], 0
+            k = rng.randint(1, 3)
+            while len(fs) < k and tries < 200:
+                tries += 1
+                fc = rng.uniform(6 * df, fny - 6 * df)
+                if all(abs(fc - g) >= 5 * df for g in fs):
+                    fs.append(fc)
+            a0 = rng.uniform(1, 3)
+            tones = [[a0, fs[0], rng.uniform(0, 2 * math.pi)]] + [[a0 * rng.uniform(0.05, 0.33), g, rng.uniform(0, 2 * math.pi)] for g in fs[1:]]
+            return dict(n=n, dt=dt, t0=t0, offset=rng.choice([0.0, 5.0, -300.0]), tones=tones,
+                        noise_sd=rng.choice([0.0, 0.05, 0.2]) * a0, noise_seed=rng.randrange(10 ** 9))
+        sig = tones_sig()
+        reqs = [dict(op="psd", nperseg=nps, noverlap=None, nfft=None, normalize=False)]
+        if rng.random() < 0.4:
+            reqs.append(dict(op="gui", nperseg=eff, normalize=False, twin=None))
+        steps = [dict(rng.choice(reqs))]
+        for _ in range(rng.randint(2, 4)):
+            for _ in range(rng.randint(1, 2)):
+                op = rng.choice(["scale", "scale", "shift", "replace", "replace", "fork", "read"])
+                steps.append(dict(op="replace", sig=tones_sig(), how=rng.choice(["assign", "slice"])) if op == "replace"
+                             else gen_update(rng, n, dt, t0, [op]))
+            steps.append(dict(rng.choice(reqs)))
+        return dict(api="history", sig=sig, steps=steps, checks=["area", "peak"])
+    n = rng.randint(16, 200)
+    dt = pick_dt(rng)
+    t0 = rng.choice([0.0, 0.0, 12.5, -3.0])
+    sig, kind = history_signal(rng, n, dt, t0)
+    if "x" not in sig:
+        jit = rng.choice([0.0, 0.0, 0.0, 0.0, 0.002, 0.05])
+        if jit:
+            sig["jitter"] = dict(amp=jit, seed=rng.randrange(10 ** 9))
+    reqs = []
+    for _ in range(rng.randint(1, 2)):
+        if rng.random() < 0.7:
+            nps, nov, nf = pick_args(rng, n, n // 4)
+            rq = dict(op="psd", nperseg=nps, noverlap=nov, nfft=nf, normalize=rng.random() < 0.3)
+            u = rng.random()
+            if u < 0.15:
+                rq["options"] = dict(twin=[t0 + 0.1 * n * dt, t0 + 0.9 * n * dt])
+            elif u < 0.3:
+                rq["options"] = dict(resample=dt * rng.choice([2.0, 0.5]))
+        else:
+            rq = dict(op="gui", nperseg=rng.choice([8, 16, 64, 512, n, max(1, n // 4)]), normalize=rng.random() < 0.3,
+                      twin=[t0 + 0.1 * n * dt, t0 + 0.9 * n * dt] if rng.random() < 0.2 else None)
+        reqs.append(rq)
+    allow = ["scale", "scale", "shift", "replace", "replace", "poke", "modify", "fork", "switch", "read"]
+    steps = [dict(rng.choice(reqs))]
+    for _ in range(rng.randint(1, 5)):
+        for _ in range(rng.choice([0, 1, 1, 1, 2])):
+            steps.append(gen_update(rng, n, dt, t0, allow))
+        steps.append(dict(rng.choice(reqs)))
+    return dict(api="history", sig=sig, steps=steps, checks=[])
+
+
+
 # ----------------------------------------------------------------------------------------------------------
 def run(chk):
     from qats import TimeSeries
@@ -798,6 +907,15 @@ def run(chk):
                      "frequencies from 0 to 1/(2 dt') of ITS sampling interval", inp,
                      dict(f_last=float(fr[-1]), peak_f=float(fr[np.argmax(pr)])), dict(f_last=float(f[-1]), peak_f=float(f[np.argmax(pp)])))
 
+    # ---- operation histories: requests interleaved with data updates on long-lived objects ----------------------------------------------
+    for k in range(150 if q else 3000):
+        case = gen_history(rng, long=(k % 6 == 5))
+        oracle_cases.append(case)
+        ops = [st["op"] for st in case["steps"]]
+        if sum(o in ("psd", "gui") for o in ops) >= 2 and any(o in ("scale", "shift", "replace", "poke", "modify") for o in ops):
+            chk.nontriv(repr(case))
+        chk.dist("history:%s:%s" % ("long" if case["checks"] else "short", "+".join(sorted(set(ops) - {"psd", "gui"})) or "repeat"))
+
     # ---- evaluate the clauses -----------------------------------------------------------------------------------------------------------------
     for case in oracle_cases:
         chk.count("oracles:" + case["api"])
@@ -827,6 +945,8 @@ def replay(rp):
         print("FAILS:", clause)
         print("   expected:", exp)
         print("   observed:", obs)
+    if case.get("api") == "history":
+        print("history:", " -> ".join(st["op"] + ("(%r)" % st["v"] if "v" in st else "") for st in case["steps"]))
     if case.get("api") in ("signal", "ts", "gui") and not case.get("twin"):
         # also show the model's answer
         try:
